@@ -24,7 +24,8 @@ RULE = 'R14'
 EVAL = '_process_step_expression'
 PROJ = {'lhs', 'rhs', 'stepExpression'}
 NAV = 'get_associated_assets_by_field_name'
-PROPS = ('C01',)
+PROPS = ('C01', 'C02')
+PROPS2 = ('C01', 'C02', 'C15')   # closure+ (non-reflexive): what the language graph's typing of field* assumes
 
 
 def run(ctx) -> list[Inst]:
@@ -105,13 +106,13 @@ def run(ctx) -> list[Inst]:
                                        f"asset) is dropped, the result falls below the transitive closure+")
                 if not ok:
                     insts.append(Inst(RULE, g.short, '(2) visited set of the transitive closure starts empty',
-                                      'violation', msg=why, file=g.module.relpath, line=n.lineno, props=PROPS))
+                                      'violation', msg=why, file=g.module.relpath, line=n.lineno, props=PROPS2))
                     continue
             insts.append(Inst(RULE, g.short, construct, 'ok' if ok else 'violation',
                               msg='' if ok else
                               (f"the loop navigates associations but is not a visited-guarded worklist ({why}): "
                                f"it does not terminate on cyclic or self-linked models"),
-                              file=g.module.relpath, line=n.lineno, props=PROPS))
+                              file=g.module.relpath, line=n.lineno, props=PROPS2))
     return insts
 
 
